@@ -559,7 +559,12 @@ impl ASN1Type {
                                 ))),
                             );
                         }
-                        (Parameter::InformationObjectParameter(_), _) => todo!(),
+                        (Parameter::InformationObjectParameter(_), _) => {
+                            return Err(grammar_error!(
+                                NotYetInplemented,
+                                "Information objects as parameters are currently unsupported ({dummy_reference} of {identifier})"
+                            ))
+                        }
                         (Parameter::ObjectSetParameter(o), ParameterGovernor::Class(c)) => {
                             match &o.values.first() {
                                     Some(osv) if o.values.len() == 1 => {
